@@ -226,6 +226,11 @@ func (p *ProofD) checkStructure(pk *gabikeys.PublicKey) bool {
 			return false
 		}
 	}
+	// the secret key (index 0) is always hidden: a proof without a response for it is not a proof of
+	// knowledge of the secret key, and linked proofs are compared on exactly this response
+	if p.AResponses[0] == nil {
+		return false
+	}
 	for i, attribute := range p.ADisclosed {
 		// the secret key (index 0) is never disclosed, and no index is both disclosed and hidden
 		if i <= 0 || i >= len(pk.R) || attribute == nil {
